@@ -288,7 +288,11 @@ def handle (line : String) : String :=
     let p := parseProg (sdrop (fs.getD 0 "") 5)
     let ws := parseWords (fs.getD 1 "")
     let r := checkOnce p (.buf ws) TS.fresh
-    s!"err={showErrSite r.err} evs={showEvs r.evs} rest={restLen r.src} {showRec r.used r.toks} pruned={showPruned r.kept}"
+    -- the literal `prune()` (removeGroup by removeGroup) against the one computed on the fly
+    let pc := match (recOfToks r.toks).prune with
+      | some lit => if lit.finished == (prunedOfToks r.toks).finished && lit.data == r.kept then "ok" else "diff"
+      | none => if (prunedOfToks r.toks).noEmptyGroup then "lit-none" else "ok"
+    s!"err={showErrSite r.err} evs={showEvs r.evs} rest={restLen r.src} {showRec r.used r.toks} pruned={showPruned r.kept} prunecheck={pc}"
   | "findbug" :: _ =>
     let p := parseProg (sdrop (fs.getD 0 "") 8)
     match spaceSplit (fs.getD 1 "") with
@@ -334,7 +338,7 @@ def handle (line : String) : String :=
           let d : DC := ⟨fb.valid, fb.invalid, false, fb.seed, none, r.used, fb.err, r.err, fb.seeds⟩
           s!"verdict={showVerdict (verdict checks d)} rng={fb.seeds.length + 1} runs= final={joinWords r.used}"
         else
-          let so := shrinkFull p (recOfToks r.toks) r.err 100000
+          let so := shrinkFull p r.toks r.err 100000
           match so.crashed with
           | some what => s!"crashed={under what} runs={" ".intercalate (so.log.map fun b => joinWords b ++ ";")}"
           | none =>
